@@ -585,4 +585,70 @@ theorem disk_all_or_nothing (fl : Flavour) (w : Tape.World) (verbose : Bool) (ar
     | error e => right; exact ⟨by simp, rfl⟩
     | ok img => exact hguard _ _ (hperf _)
 
+
+/-! ### no action ever alters a source file -/
+
+/-- **C20 (no action ever alters a source file — tape creation)**: for every world and every source list, every path
+    `--create` writes is the archive, and then the archive is not the file read for any of the sources (`samePath`: the same place
+    under any lexical spelling) — a run that would write over one of its sources writes nothing instead
+    (`tape_create_refuses_archive_as_source`).  List writes nothing (`tape_list_readonly`), extract writes inside the destination
+    and never onto the archive (`tape_extract_only_destination`, `tape_extract_never_overwrites_archive`). -/
+theorem tape_create_alters_no_source (w : Tape.World) (verbose : Bool) (archive : Str) (srcs : List Str) :
+    ∀ wr ∈ (Tape.inject w verbose archive srcs).writes,
+      wr.1 = archive ∧ ∀ s ∈ srcs, samePath (Tape.classifyRaw s).2 archive = false := by
+  intro wr hwr
+  rcases C09.all_or_nothing w verbose archive srcs with ⟨_, tape, hw, _⟩ | ⟨_, hw⟩
+  · rw [hw] at hwr
+    simp only [List.mem_singleton] at hwr
+    refine ⟨by rw [hwr], ?_⟩
+    intro s hs
+    cases hsp : samePath (Tape.classifyRaw s).2 archive with
+    | false => rfl
+    | true =>
+      have href : Tape.refusal archive s ≠ none := by
+        unfold Tape.refusal
+        simp only [hsp, if_true]
+        exact fun h => by cases h
+      have := (tape_create_refuses_archive_as_source w verbose archive srcs ⟨s, hs, href⟩).2
+      rw [this] at hw
+      cases hw
+  · rw [hw] at hwr
+    cases hwr
+
+open Moto.Disk in
+/-- **C20 (no action ever alters a source file — disk creation and addition)**: every path `--create` / `--add` (to a four-sided
+    image) writes is the archive, and then no source argument designates the archive's own existing file -/
+theorem disk_update_alters_no_source (fl : Flavour) (w : Tape.World) (verbose : Bool) (archive : Str) (raw : Bytes) (img : Image)
+    (srcs : List Str) (hl : load fl raw = .ok img) (h4 : img.length = 4) :
+    (∀ wr ∈ (createCmd fl w verbose archive srcs).writes, wr.1 = archive ∧ ∀ s ∈ srcs, srcIsArchive w archive s = false)
+    ∧ (∀ wr ∈ (addCmd fl w verbose archive raw srcs).writes, wr.1 = archive ∧ ∀ s ∈ srcs, srcIsArchive w archive s = false) := by
+  obtain ⟨hc, ha⟩ := disk_all_or_nothing fl w verbose archive raw srcs
+  constructor
+  · intro wr hwr
+    rcases hc with ⟨_, b, hw⟩ | ⟨_, hw⟩
+    · rw [hw] at hwr
+      simp only [List.mem_singleton] at hwr
+      refine ⟨by rw [hwr], ?_⟩
+      intro s hs
+      cases hsp : srcIsArchive w archive s with
+      | false => rfl
+      | true =>
+        have := (disk_create_refuses_archive_as_source fl w verbose archive srcs ⟨s, hs, hsp⟩).1
+        rw [this] at hw
+        cases hw
+    · rw [hw] at hwr; cases hwr
+  · intro wr hwr
+    rcases ha with ⟨_, b, hw⟩ | ⟨_, hw⟩
+    · rw [hw] at hwr
+      simp only [List.mem_singleton] at hwr
+      refine ⟨by rw [hwr], ?_⟩
+      intro s hs
+      cases hsp : srcIsArchive w archive s with
+      | false => rfl
+      | true =>
+        have := (disk_add_refuses_archive_as_source fl w verbose archive raw img srcs hl h4 ⟨s, hs, hsp⟩).1
+        rw [this] at hw
+        cases hw
+    · rw [hw] at hwr; cases hwr
+
 end Moto.C20
